@@ -127,9 +127,13 @@ def main() -> int:
                     "caught_by": r.get("caught_by", []),
                 }
                 (dst / "meta.json").write_text(json.dumps(meta_out, indent=1))
-    (V / "seeded" / "SUMMARY.json").write_text(json.dumps(
-        [{k: r.get(k) for k in ("id", "confirmed", "baseline_rc", "demo_pristine_rc", "demo_mutant_rc", "error")} |
-         {"caught_by": [c["property"] for c in r.get("caught_by", [])]} for r in results], indent=1))
+    summary = []
+    for d in sorted(SEEDED.iterdir()):
+        if (d / "meta.json").exists():
+            m = json.loads((d / "meta.json").read_text())
+            summary.append({"id": d.name, "property": m["property"], "title": m.get("title"), "confirmed": True,
+                            "caught_by": [c["property"] for c in m.get("caught_by", [])]})
+    (SEEDED / "SUMMARY.json").write_text(json.dumps(summary, indent=1))
     return 0
 
 
